@@ -52,6 +52,9 @@ class MLife(Monitor):
         self.flagged = set()
 
     def on_op(self, w, op):
+        if op["op"] == "crash":
+            # the start event of an execution that was not acknowledged before a crash is redelivered and announced again
+            self.crashes = getattr(self, "crashes", 0) + 1
         if op["op"] == "publish" and op.get("arn") and op.get("exchange") == "":
             try:
                 ctx = json.loads(op["body"].decode("utf8"))["context"]
@@ -71,7 +74,7 @@ class MLife(Monitor):
         arn, st = d.get("executionArn"), d.get("status")
         seq = self.status.setdefault(arn, [])
         if st == "RUNNING":
-            if seq:
+            if seq and not (getattr(self, "crashes", 0) and seq.count("RUNNING") <= self.crashes and not any(x in TERMINAL for x in seq)):
                 self.flag(w, "second_running", "RUNNING notified again after %s" % seq, arn)
         else:
             if not seq:
@@ -118,7 +121,7 @@ class MLife(Monitor):
                 self.flag(w, "never_terminal", "execution started but never reached a terminal status (notifications %s)" % seq, arn)
 
     def state(self):
-        return [sorted(self.status.items()), sorted(self.frozen.items()), sorted(self.started)]
+        return [sorted(self.status.items()), sorted(self.frozen.items()), sorted(self.started), getattr(self, "crashes", 0)]
 
 # ------------------------------------------------------------------------------------------------------
 class MCarry(Monitor):
@@ -721,6 +724,8 @@ def _loose_eq(g, w):
         return True
     if isinstance(g, list) and isinstance(w, list):
         return len(g) == len(w) and all(_loose_eq(a, b) for a, b in zip(g, w))
+    if w == "<<request id: any string>>":
+        return isinstance(g, str)
     return json.dumps(g) == json.dumps(w)
 
 class MRef(Monitor):
@@ -1205,6 +1210,9 @@ class MChild(Monitor):
             if tag in ("forged", "truncated", "notbase64"):
                 if not (a["status"] == 400 and a["type"] == "InvalidToken"):
                     self._flag(w, "bad_token_accepted", "%s with a %s token answered HTTP %s %s, expected 400 InvalidToken" % (a["action"], tag, a["status"], a["type"]), what=tag)
+            elif tag == "malformed":
+                if not (a["status"] == 400 and a["type"] in ("InvalidToken", "MissingRequiredParameter", "ValidationException")):
+                    self._flag(w, "bad_token_accepted", "%s with a malformed (%s) token answered HTTP %s %s, expected 400 InvalidToken" % (a["action"], a.get("mangle"), a["status"], a["type"]), what="malformed")
             elif tag in ("valid", "valid-failure"):
                 self.valid_cb_steps.append(a["step"])
                 if a["status"] != 200:
@@ -1261,6 +1269,17 @@ class MChild(Monitor):
         except Exception:
             pass
         f = self.form
+        if f in ("start", "start-mixed", "sync", "sync2", "sdk", "sync-unnamed", "sync2-unnamed", "start-unnamed") and st == "SUCCEEDED" and isinstance(out, dict):
+            # frame law: the launching Task places its result (or a Catcher the Error Output) into its raw input, which is otherwise untouched
+            try:
+                pin = [x["input"] for x in self.sc["starts"] if x.get("name") == "p1"][0]
+            except Exception:
+                pin = None
+            rest = {k: v for k, v in out.items() if k not in ("child", "err")}
+            if pin is not None and json.dumps(rest, sort_keys=True) != json.dumps(pin, sort_keys=True):
+                self._flag(w, "parent_input_changed", "the parent's output apart from the placed result is %r, its input was %r" % (rest, pin), what="frame")
+        if f in ("sync2-unnamed", "start-unnamed") and (st != "SUCCEEDED" or not isinstance((out or {}).get("child") if isinstance(out, dict) else None, dict)):
+            self._flag(w, "unnamed_launch_result", "parent ended %s with output %r" % (st, out))
         if f == "start":
             c = (out or {}).get("child") if isinstance(out, dict) else None
             if st != "SUCCEEDED" or not isinstance(c, dict) or c.get("executionArn") != self.child or not isinstance(c.get("startDate"), (int, float)) or set(c) != {"executionArn", "startDate"}:
@@ -1302,6 +1321,9 @@ class MChild(Monitor):
         elif f == "invalid":
             if st != "FAILED" or self.child_running:
                 self._flag(w, "invalid_combination_ran", "parent ended %s (error %r), child started: %s" % (st, d.get("error"), self.child_running))
+            elif d.get("error") in ("States.Timeout", "States.HeartbeatTimeout") or w.clock.now - 1900000000.0 >= 1.0:
+                # the launch is refused when it is attempted: the task must fail there and then, not sit until some time-out ends it
+                self._flag(w, "invalid_combination_blocked", "parent failed only after %.0f s with %r: the refused launch left the task waiting" % (w.clock.now - 1900000000.0, d.get("error")))
         elif f == "token":
             allowed = self.sc.get("allowed")
             cb = out.get("cb") if isinstance(out, dict) else None
@@ -1327,6 +1349,7 @@ class MRoute(Monitor):
         self.shared = "asl_workflow_events" + ("-qq" if scenario.get("queue_type") == "quorum" else "")
         self.suffix = "-qq" if scenario.get("queue_type") == "quorum" else ""
         self.requests = {}       # correlation id -> connection name that issued it
+        self.event_state = {}    # event message id -> (state machine ARN, state name)
         self.sync_children = set()
         self.child_form = scenario.get("child_form")
         # state machines that some definition of the scenario launches asynchronously (states:startExecution without .sync /
@@ -1358,6 +1381,38 @@ class MRoute(Monitor):
                 return inst.config["event_queue"]["instance_id"]
         return None
 
+    def _function_of(self, w, event_id):
+        """The worker queue the Task state of this event names (None when that cannot be told statically)."""
+        sm, name = self.event_state.get(event_id, (None, None))
+        if not sm or not name:
+            return None
+        d = None
+        for mname, m in (w.sc.get("machines") or {}).items():
+            if str(sm).endswith(":stateMachine:" + mname):
+                d = m.get("definition")
+        found = []
+        def walk(x):
+            if isinstance(x, dict):
+                sts = x.get("States")
+                if isinstance(sts, dict) and isinstance(sts.get(name), dict):
+                    found.append(sts[name])
+                for v in x.values():
+                    walk(v)
+            elif isinstance(x, list):
+                for v in x:
+                    walk(v)
+        walk(d)
+        if len(found) != 1 or found[0].get("Type") != "Task":
+            return None
+        res = found[0].get("Resource")
+        if isinstance(res, str) and res.startswith("arn:aws:rpcmessage:"):
+            return res.rsplit(":", 1)[-1]
+        if isinstance(res, str) and ":rpcmessage:invoke" in res:
+            fn = (found[0].get("Parameters") or {}).get("FunctionName")
+            if isinstance(fn, str) and fn.startswith("arn:aws:rpcmessage:"):
+                return fn.rsplit(":", 1)[-1]
+        return None
+
     def on_op(self, w, op):
         k = op["op"]
         if k == "deliver" and op.get("arn"):
@@ -1379,6 +1434,7 @@ class MRoute(Monitor):
                 try:
                     ctx = json.loads(op["body"].decode("utf8"))["context"]
                     name = (ctx.get("State") or {}).get("Name")
+                    self.event_state[op.get("message_id")] = ((ctx.get("StateMachine") or {}).get("Id"), name)
                 except Exception:
                     name = None
                 arn = op["arn"]
@@ -1419,6 +1475,9 @@ class MRoute(Monitor):
                 base = cid.split(".")[0]
                 if base not in self.unacked_events.get(conn, {}):
                     self._flag(w, ("cid", rk), "wrong_correlation_id", "request to %s carries correlation id %r which is not the id of a task event held by %s" % (rk, cid, conn), None, op.get("site"), queue=rk)
+                want_fn = self._function_of(w, base)
+                if want_fn is not None and want_fn != rk:
+                    self._flag(w, ("fn", rk), "request_to_wrong_function", "the request of the task event %s (function %s) was published to %s" % (base, want_fn, rk), None, op.get("site"), queue=rk)
                 if not op.get("mandatory"):
                     self._flag(w, ("mand", rk), "request_not_mandatory", "request to %s is not published as mandatory" % rk, None, op.get("site"), queue=rk)
                 self.requests[cid] = conn
